@@ -110,6 +110,7 @@ def build(chk):
         chk.add(f"raises/{name}", [], z3.BoolVal(bool(outs) and all(o.kind == "raise" and o.exc == "ValueError" for o in outs)), func=fq,
                 meta={"replay": {"method": "lebedev", "mode": "errors"}})
     constructor_cache(chk)
+    constructor_requests(chk)
     converter(chk)
 
 
@@ -142,6 +143,15 @@ def loader_accepts(chk, method, mode, pi, pc, d, s, rep):
         p = reached["path"]
         pkg_ok = isinstance(p, I.Opaque) and p.data.get("pkg", "").startswith("grid.data.") and str(p.data.get("name", "")).startswith(method + "_")
     chk.add(f"{method}/{mode}/loader/reaches-data-file@{pi}", [], z3.BoolVal(bool(ok and pkg_ok)), func=fq, meta={"replay": dict(rep, mode=mode)})
+
+
+def constructor_requests(chk):
+    """The property speaks about the grid that is *built*: AngularGrid.__init__ itself (its handling of `size`/`degree`, e.g. a request of
+    size 0, sits between the caller and `_get_degree_and_size`) is executed for a symbolic request by degree and by size (0..max) with the
+    loader by contract: the built grid has the least supported degree (size) not below the request, the loader is asked for that pair, the
+    instance reports it, and requests above the maximum are refused.  Shared with C02 (contracts/C02.py: constructor)."""
+    from contracts import C02 as _c02
+    _c02.constructor(chk, resolution_only=True)
 
 
 def constructor_cache(chk):
